@@ -313,6 +313,9 @@ func main() {
 			defer wg.Done()
 			outp := filepath.Join(runDir, fmt.Sprintf("w%d.json", w))
 			timeout := time.Duration(b.Seconds)*time.Second + 5*time.Minute
+			if replay != "" {
+				timeout = 4 * time.Minute
+			}
 			pi := w % len(parts)
 			if replay != "" {
 				pi = replayPart(replay, len(parts))
@@ -352,6 +355,7 @@ func main() {
 				cmd.Process.Kill()
 				<-done
 				logs[w] = fmt.Sprintf("worker killed by watchdog after %v\n%s", timeout, tail(buf.String(), 60))
+				buf.WriteString("\nfatal error: verif watchdog: scenario still running " + timeout.String() + " after start of the batch (hang)\n")
 			}
 			if rb, err := os.ReadFile(outp); err == nil {
 				var r sim.WorkerResult
